@@ -1,6 +1,6 @@
 (* C11_Model.v — eager loading: identity keys and the preload matching loop.
    Modelled code (no proofs here):
-     utils/utils.go    ToStringKey                       -> part_str, to_string_key
+     utils/utils.go    ToStringKey + escapeKeyPart       -> esc, esc_str, part_str, to_string_key
      schema/utils.go   GetIdentityFieldValuesMap         -> identity_map (bucket map + IN list)
      schema/utils.go   ToQueryValues + clause.IN         -> in_list / fetch (SQL row-value IN, 3-valued)
      callbacks/preload.go preload, single hop            -> preload_hop
@@ -27,13 +27,25 @@ Definition key := list keypart.
 (* strconv / fmt.Sprint of an integer *)
 Definition dec (z : Z) : string := NilEmpty.string_of_int (Z.to_int z).
 
-(* one element of [results] in ToStringKey *)
+(* utils.ToStringKey as it is on the tree (since fix 5d340d3): one element of [results].
+   escapeKeyPart: the string "nil" -> "\nil"; otherwise '\' -> "\\" and '_' -> "\_";
+   a nil pointer / nil interface -> "nil"; every other value is printed (zero numbers as numbers,
+   pointers dereferenced). *)
+Definition bs : ascii := "\"%char.
+Definition us : ascii := "_"%char.
+Fixpoint esc (s : string) : string :=
+  match s with
+  | EmptyString => EmptyString
+  | String a r => if Ascii.eqb a bs then String bs (String bs (esc r))
+                  else if Ascii.eqb a us then String bs (String us (esc r))
+                  else String a (esc r)
+  end.
+Definition esc_str (s : string) : string := if String.eqb s "nil" then String bs "nil" else esc s.
 Definition part_str (p : keypart) : string :=
   match p with
-  | KStr s | KPStr s => s
+  | KStr s | KPStr s => esc_str s
   | KUint n => dec (Z.of_N n)
-  | KInt z => if z =? 0 then "nil" else dec z       (* default case: IsZero -> "nil" *)
-  | KPInt z => dec z                                  (* non-nil pointer is not zero: Sprint(Indirect) *)
+  | KInt z | KPInt z => dec z
   | KNil => "nil"
   end.
 Definition to_string_key (k : key) : string := String.concat "_" (map part_str k).
@@ -115,8 +127,8 @@ Fixpoint im_append (s : string) (is_ : list nat) (m : imap) : imap :=
   | (k, v) :: r => if String.eqb k s then (k, v ++ is_) :: r else (k, v) :: im_append s is_ r
   end.
 
-(* everything below is parameterised by the key encoding [tsk] (utils.ToStringKey on the current
-   tree; the proposed patched encoding at the end of this file) *)
+(* everything below is parameterised by the key encoding [tsk] (instantiated with to_string_key,
+   utils.ToStringKey on the current tree) *)
 Section WithKey.
 Variable tsk : key -> string.
 
@@ -233,24 +245,15 @@ Definition attach_m2m (h : hop) (ps : list key) (js : list jrow) (cs : list chil
 Definition last1 (l : list Z) : list Z := match rev l with [] => [] | x :: _ => [x] end.
 Definition norm_single (single : bool) (o : outs) : outs := if single then map last1 o else o.
 
-(* ================= the proposed injective encoding (patch of utils.ToStringKey) ================= *)
-(* strings: '\' -> "\\", '_' -> "\_", and the whole string "nil" -> "\nil";
-   zero numbers print as numbers; only a real nil prints "nil". *)
-Definition bs : ascii := "\"%char.
-Definition us : ascii := "_"%char.
-Fixpoint esc (s : string) : string :=
-  match s with
-  | EmptyString => EmptyString
-  | String a r => if Ascii.eqb a bs then String bs (String bs (esc r))
-                  else if Ascii.eqb a us then String bs (String us (esc r))
-                  else String a (esc r)
-  end.
-Definition esc_str (s : string) : string := if String.eqb s "nil" then String bs "nil" else esc s.
-Definition part_str_fixed (p : keypart) : string :=
+(* ================= the PREVIOUS encoding (utils.ToStringKey before fix 5d340d3) =================
+   Kept only to state what was wrong with it (Props_C11, the c11_prev theorems): no escaping, zero values of the
+   default case printed as "nil". Nothing in the checker evaluates it. *)
+Definition part_str_prev (p : keypart) : string :=
   match p with
-  | KStr s | KPStr s => esc_str s
+  | KStr s | KPStr s => s
   | KUint n => dec (Z.of_N n)
-  | KInt z | KPInt z => dec z
+  | KInt z => if z =? 0 then "nil" else dec z
+  | KPInt z => dec z
   | KNil => "nil"
   end.
-Definition to_string_key_fixed (k : key) : string := String.concat "_" (map part_str_fixed k).
+Definition to_string_key_prev (k : key) : string := String.concat "_" (map part_str_prev k).
